@@ -105,6 +105,8 @@ def gen_clamp(rng, kind, v, pos, planar):
         c["a"] = rng.uniform(0.1, 0.5)
         c["b"] = rng.uniform(0.1, 0.5)
         c["bounds"] = None if rng.random() < 0.5 else [c["a"] - rng.uniform(0.02, 0.3), c["a"] + rng.uniform(0.02, 0.3)]
+        if c["bounds"] is not None and rng.random() < 0.2:
+            c["bounds"][rng.randrange(2)] = c["a"]   # the vertex sits on a bound of the line
     elif t == "curve":
         d = rand_unit(rng)
         e = rand_vec(rng, 0.5)
@@ -113,7 +115,8 @@ def gen_clamp(rng, kind, v, pos, planar):
             e = [e[0], e[1], 0.0]
         c["d"] = [x * rng.uniform(0.3, 0.8) for x in d]
         c["e"] = e
-        c["t0"] = rng.uniform(0.15, 0.85)
+        # the vertex sometimes sits on an END of the curve: the clamp then starts on a bound of its parameter
+        c["t0"] = rng.choice([0.0, 1.0]) if rng.random() < 0.15 else rng.uniform(0.15, 0.85)
         c["initial"] = rng.random() < 0.5
     elif t == "radial":
         off = rand_vec(rng, 0.6)
